@@ -959,10 +959,11 @@ mod v_wire_views {
         dhcp_repr_view::<245>();
     }
 
-    /// `shape`: option kinds and lengths; values, header and magic cookie symbolic; `bad`: index of an
-    /// option whose length octet is symbolic as well (zero, short, oversized); `cut`: the buffer ends
-    /// `cut` bytes before the end of the option list (truncated message).
-    fn dhcp_shape_view<const K: usize>(shape: [(u8, u8); K], bad: usize, cut: usize) -> (bool, bool, bool, bool) {
+    /// `shape`: option kinds and lengths; values, header and magic cookie symbolic; `bad` = (index, l): the
+    /// length octet of that option is written as `l` although the template reserves the shape's number of
+    /// value bytes (zero, short, oversized lengths; a symbolic `l` makes the rest of the list free-form
+    /// again: no answer in 30 min); `cut`: the buffer ends `cut` bytes before the end of the option list.
+    fn dhcp_shape_view<const K: usize>(shape: [(u8, u8); K], bad: (usize, u8), cut: usize) -> (bool, bool, bool, bool) {
         let mut bytes = [0u8; 300];
         let hdr: [u8; 34] = kani::any();
         bytes[..34].copy_from_slice(&hdr);
@@ -973,7 +974,7 @@ mod v_wire_views {
         while j < K {
             let (kind, l) = shape[j];
             bytes[o] = kind;
-            bytes[o + 1] = if j == bad { kani::any() } else { l };
+            bytes[o + 1] = if j == bad.0 { bad.1 } else { l };
             let v: [u8; 8] = kani::any();
             let mut m = 0;
             while m < l as usize {
@@ -998,28 +999,32 @@ mod v_wire_views {
     // @harness props=C07,C03 cfg=KW tier=q to=600 mem=6 unwind=12 opts=term,fs300 covers=1 funcs=DhcpRepr::parse;DhcpPacket::options bounds=option_list_shape_53/1,1/4,3/4,51/4,58/4,59/4,54/4,6/8,pad,end;_all_values_and_header_symbolic
     #[kani::proof]
     pub(crate) fn view_dhcp_repr_shape_server() {
-        let r = dhcp_shape_view::<8>([(53, 1), (1, 4), (3, 4), (51, 4), (58, 4), (59, 4), (54, 4), (6, 8)], 99, 0);
+        let r = dhcp_shape_view::<8>([(53, 1), (1, 4), (3, 4), (51, 4), (58, 4), (59, 4), (54, 4), (6, 8)], (99, 0), 0);
         kani::cover!(r.0 && r.1 && r.2, "dhcp: server-shaped option list parsed");
     }
     // @harness props=C07,C03 cfg=KW tier=q to=600 mem=6 unwind=12 opts=term,fs300 covers=1 funcs=DhcpRepr::parse;DhcpPacket::options bounds=option_list_shape_53/1,61/7,50/4,57/2,55/3,pad,end;_all_values_and_header_symbolic
     #[kani::proof]
     pub(crate) fn view_dhcp_repr_shape_client() {
-        let r = dhcp_shape_view::<5>([(53, 1), (61, 7), (50, 4), (57, 2), (55, 3)], 99, 0);
+        let r = dhcp_shape_view::<5>([(53, 1), (61, 7), (50, 4), (57, 2), (55, 3)], (99, 0), 0);
         kani::cover!(r.0 && r.3, "dhcp: client-shaped option list parsed");
     }
-    // zero / short / oversized length octet in the middle of the list
-    // @harness props=C07,C03 cfg=KW tier=q to=900 mem=8 unwind=12 opts=term,fs300 covers=2 funcs=DhcpRepr::parse;DhcpPacket::options bounds=option_list_shape_53/1,6/any,51/4,pad,end;_length_octet_of_the_DNS_option_symbolic
+    // zero / short / swallowing / oversized length octet in the middle of the list (one call per value)
+    // @harness props=C07,C03 cfg=KW tier=q to=900 mem=8 unwind=12 opts=term,fs300 covers=3 funcs=DhcpRepr::parse;DhcpPacket::options bounds=option_list_shape_53/1,6/L,51/4,pad,end_with_8_value_bytes_reserved_and_L_in_{0,3,11,255}
     #[kani::proof]
     pub(crate) fn view_dhcp_repr_shape_bad_len() {
-        let r = dhcp_shape_view::<3>([(53, 1), (6, 8), (51, 4)], 1, 0);
-        kani::cover!(r.0 && r.1 && !r.2, "dhcp: DNS option with a length that swallows the next option");
-        kani::cover!(r.0 && !r.1, "dhcp: oversized option ends the list");
+        let z = dhcp_shape_view::<3>([(53, 1), (6, 8), (51, 4)], (1, 0), 0);
+        let s3 = dhcp_shape_view::<3>([(53, 1), (6, 8), (51, 4)], (1, 3), 0);
+        let sw = dhcp_shape_view::<3>([(53, 1), (6, 8), (51, 4)], (1, 11), 0);
+        let ov = dhcp_shape_view::<3>([(53, 1), (6, 8), (51, 4)], (1, 255), 0);
+        kani::cover!(z.0 && z.1, "dhcp: zero-length DNS option accepted as empty list");
+        kani::cover!(sw.0 && sw.1 && !sw.2, "dhcp: DNS option whose length swallows the next option header");
+        kani::cover!(ov.0 && !ov.1 && !ov.2, "dhcp: oversized option ends the list");
     }
     // truncated message: the buffer ends inside the last option
     // @harness props=C07,C03 cfg=KW tier=q to=600 mem=6 unwind=12 opts=term,fs300 covers=1 funcs=DhcpRepr::parse;DhcpPacket::options bounds=option_list_shape_53/1,51/4,6/8_cut_5_bytes_short
     #[kani::proof]
     pub(crate) fn view_dhcp_repr_shape_truncated() {
-        let r = dhcp_shape_view::<3>([(53, 1), (51, 4), (6, 8)], 99, 5);
+        let r = dhcp_shape_view::<3>([(53, 1), (51, 4), (6, 8)], (99, 0), 5);
         kani::cover!(r.0 && !r.1 && r.2, "dhcp: truncated last option ignored");
     }
 
